@@ -140,6 +140,14 @@ def analyze_trace(args):
         ev = []
         try:
             write_table(str(d / 'unity.csv'), random.Random(0), unity=True)
+            # statistical subfactors only (direct ones are 1): at output
+            # confidence 0 the hot spot is the nominal peak
+            rows = ['Subfactor,Type,Coolant,Film,Cladding,Gap,Fuel',
+                    'd0,Direct,1.0,1.0,1.0,1.0,1.0',
+                    's0,Statistical,1.2,1.1,1.3,1.15,1.25',
+                    's1,Statistical,1.05,1.4,1.0,1.2,1.1']
+            with open(str(d / 'statonly.csv'), 'w') as fh:
+                fh.write('\n'.join(rows) + '\n')
             inp, r = cases.build(dassh, case, str(d))
             r.temperature_sweep()
             res = dassh.hotspot.analyze(r)
@@ -193,6 +201,12 @@ def analyze_cases(rng):
         for t in c['types'].values():
             t['Hotspot'] = copy.deepcopy(hs)
         out.append((label, c))
+        # output confidence level 0 with statistical uncertainty only
+        c0 = copy.deepcopy(c)
+        for t in c0['types'].values():
+            for h in t['Hotspot'].values():
+                h.update(subfactors='statonly.csv', output_sigma=0)
+        out.append((label + '-out0-statonly', c0))
     return out
 
 
